@@ -2553,3 +2553,71 @@ Q(name="e2_bloom_filter_check_and_insert", props=["C14"], func=r"bloom_token_log
   functions=["bloom_token_log::Filter::check_and_insert (one iteration of the set -> bloom carry-over loop)"], pre=lambda c: "true", post=bf_post,
   bounds="every filter state, fingerprint and size limit (the MIR is dumped with quinn-proto's `bloom` feature on): a fingerprint is refused exactly when the hash set / bloom filter reports it as present; a set that has outgrown its budget becomes a bloom filter only after an iterator over the WHOLE old set has run dry, and every element that iterator yields is inserted into the new filter (one iteration shown) - so no accepted token is forgotten by the conversion; hashbrown / fastbloom operations are opaque",
   replay=("token_bloom_replay_native", lambda m: [dict(n=200, budget=800), dict(n=20, budget=800), dict(n=500, budget=4096)]))
+
+
+# ------------------------------------------------------------------ C09 / C08: endpoint events Drained / NeedIdentifiers / RetireConnectionId act on exactly the reporting connection and the reported CID
+def eh_post(c, p):
+    st = p.p.state
+    if p.p.outcome != "return":
+        return "true"
+    d = c.inp("_3.0#discr", I64)
+    V = c.ex.enums["EndpointEventInner"].index
+    some = eq(c.ex.read_key(st, "_0#discr", I64).t, bv(1))
+    tr = p.called(r"Slab.*::try_remove$")
+    ir = p.called(r"ConnectionIndex::remove$")
+    sn = p.called(r"Endpoint::send_new_identifiers$")
+    hr = p.called(r"HashMap.*::remove$")
+    rt = p.called(r"ConnectionIndex::retire$")
+    conns = "*_1.%d" % c.field("endpoint.rs", "Endpoint", "connections")
+    index = "*_1.%d" % c.field("endpoint.rs", "Endpoint", "index")
+    if tr:
+        # Drained: the slot of THIS handle is freed and every route of the connection stored there is dropped
+        if len(tr) != 1 or sn or hr or rt or tr[0][1][0] != ("ref", conns) or tr[0][1][1][0] != "val":
+            return "false"
+        got = eq(c.ex.read_key(st, tr[0][2] + "#discr", I64).t, bv(1))
+        if ir:
+            ok = len(ir) == 1 and ir[0][1][0] == ("ref", index) and ir[0][1][1][0] == "ref" and c.ex.origin(st, _k(ir[0][1][1][1])) in (tr[0][2] + "@Some.0", _k(ir[0][1][1][1])) and str(c.ex.origin(st, _k(ir[0][1][1][1]))).startswith(("_", "*_")) 
+            if not ok:
+                return "false"
+        return and_(eq(d, bv(V("Drained"))), eq(tr[0][1][1][1].t, c.inp("_2.0", BV64)), got if ir else not_(got), not_(some))
+    if hr:
+        # RetireConnectionId: the CID stored under this sequence number for THIS connection stops routing
+        loc = "*call:<Slab<ConnectionMeta> as IndexMut<ConnectionHandle>>::index_mut(%s,_2).%d" % (conns, c.field("endpoint.rs", "ConnectionMeta", "loc_cids"))
+        if len(hr) != 1 or ir or not str(hr[0][1][0][1]).startswith(loc) or hr[0][1][1][0] != "ref":
+            return "false"
+        key_ok = c.ex.origin(st, _k(hr[0][1][1][1]).lstrip("*")) in ("_3.0@RetireConnectionId.1",) or eq(c.ex.read_key(st, _k(hr[0][1][1][1]).lstrip("*"), BV64).t, c.inp("_3.0@RetireConnectionId.1", BV64))
+        had = eq(c.ex.read_key(st, hr[0][2] + "#discr", I64).t, bv(1))
+        more = c.inp("_3.0@RetireConnectionId.2", BOOL)
+        out = [eq(d, bv(V("RetireConnectionId"))), key_ok if isinstance(key_ok, str) else "true"]
+        if rt:
+            if len(rt) != 1 or rt[0][1][0] != ("ref", index) or rt[0][1][1] != ("agg", hr[0][2] + "@Some.0"):
+                return "false"
+            out.append(had)
+        else:
+            out.append(not_(had))
+        if sn:
+            a = sn[0][1]
+            if len(sn) != 1 or not rt or a[1] != ("agg", "_3.0@RetireConnectionId.0") or a[2] != ("agg", "_2") or a[3][0] != "val":
+                return "false"
+            out += [more, some, eq(a[3][1].t, bv(1))]
+        else:
+            out += [or_(not_(had), not_(more)), not_(some)]
+        return and_(*out)
+    if sn:
+        a = sn[0][1]
+        if len(sn) != 1 or a[1] != ("agg", "_3.0@NeedIdentifiers.0") or a[2] != ("agg", "_2") or a[3][0] != "val":
+            return "false"
+        return and_(eq(d, bv(V("NeedIdentifiers"))), some, eq(a[3][1].t, c.inp("_3.0@NeedIdentifiers.1", BV64)))
+    return eq(d, bv(V("ResetToken")))
+
+
+def eh_pre(c):
+    V = c.ex.enums["EndpointEventInner"].index
+    return not_(eq(c.inp("_3.0#discr", I64), bv(V("ResetToken"))))
+
+
+Q(name="e2_endpoint_retire_and_drained_events", props=["C09", "C08"], func=r"endpoint\.rs[^>]*>::handle_event$",
+  pure=[r"IndexMut<ConnectionHandle>>::index_mut"], allowed_panics=r"attempt to",
+  functions=["Endpoint::handle_event (Drained, NeedIdentifiers and RetireConnectionId arms)"], pre=eh_pre, post=eh_post,
+  bounds="every event and handle: Drained frees the slot of exactly the reporting handle and passes the connection stored there - and nothing else - to ConnectionIndex::remove, answering nothing; RetireConnectionId removes the CID stored under exactly the reported sequence number of exactly this connection, un-routes exactly that CID, and asks for one replacement CID exactly when the event allows it and a CID was removed; NeedIdentifiers issues exactly the requested number for this handle; Slab / HashMap / ConnectionIndex operations opaque",
+  replay=("endpoint_retire_and_drained_native", lambda m: [dict(allow_more=0), dict(allow_more=1)]))
